@@ -805,6 +805,7 @@ class Explorer:
         self.n_queries = 0
         self.n_retries = 0
         self._m = None
+        self.dump, self.dump_max, self.dump_every = None, 0, 1
         self.n_obligations = 0
         self.n_discharged = 0
         self.solver_time = 0.0
@@ -851,6 +852,8 @@ class Explorer:
         t0 = time.time()
         self.n_queries += 1
         r = self.solver.check()
+        if self.dump is not None and len(self.dump) < self.dump_max and r != z3.unknown and self.n_queries % self.dump_every == 0:
+            self.dump.append((self.solver.to_smt2(), str(r)))
         if r == z3.sat:
             self._m = self.solver.model()
         elif r == z3.unknown:
